@@ -8,10 +8,14 @@ pub mod c05;
 pub mod c08;
 pub mod c10;
 pub mod c11;
+pub mod c12;
+pub mod c13;
+pub mod c14;
+pub mod fmtwork;
 pub mod c08_lang;
 
 pub fn all() -> Vec<PropertyDef> {
-    vec![c01::def(), c02::def(), c03::def(), c05::def(), c08::def(), c10::def(), c11::def()]
+    vec![c01::def(), c02::def(), c03::def(), c05::def(), c08::def(), c10::def(), c11::def(), c12::def(), c13::def(), c14::def()]
 }
 
 pub fn lookup(id: &str) -> Option<PropertyDef> {
